@@ -269,8 +269,9 @@ def _run(pid, tier):
             t = mgmodel.record(ad, [{"op": "set_surface", "args": [nm_[0], zb + 1]}, {"op": "snap_columns_to_layers", "args": [2, sub]}])
             traces.append(t)
             meta.append((kind_ + "-snap-subset", t))
-    # the top of the model above zero, a column surface of exactly 0.0 strictly inside a layer, layers refined
-    for factor in (2, 3):
+    # the top of the model above zero, a column surface of exactly 0.0 strictly inside a layer, layers refined (by 4: one of the
+    # new layers then lies wholly above that surface)
+    for factor in (2, 3, 4):
         geo = mgmodel.lattice_mesh("2x2")
         with core.quiet():
             geo.translate(np.array([0.0, 0.0, 15.0]))
